@@ -250,7 +250,7 @@ impl Engine for C07 {
     fn runs(&self, tier: Tier) -> u64 {
         match tier {
             Tier::Quick => 250_000,
-            Tier::Thorough => 3_000_000,
+            Tier::Thorough => 8_000_000,
         }
     }
 
